@@ -6,7 +6,9 @@ from vlib import *
 PRELUDE = """local T = {} for i = 1, %(ms)d do T[i] = {} end
 emit("tables", %(tl)s)
 local mk
+local LOST = {}
 mk = function(h, id)
+  if h == "lost" then LOST[id] = {__close = function() emit("handler-of-lost-called", id) end} return setmetatable({}, LOST[id]) end
   return setmetatable({}, {__close = function(_, e)
     emit("tbc", id, e)
     if h == "raise" then error("R" .. id, 0) end
@@ -114,8 +116,8 @@ def render(line, ms, battery=False):
             continue
         if act == "decl":
             h = a["h"]
-            rhs = {"ok": 'mk("ok", %d)' % k, "raise": 'mk("raise", %d)' % k, "raisetbc": 'mk("raisetbc", %d)' % k, "nil": "nil", "false": "false", "nometa": "{}"}[h]
-            put(ind + "local x%d <close> = %s" % (k, rhs))
+            rhs = {"ok": 'mk("ok", %d)' % k, "raise": 'mk("raise", %d)' % k, "raisetbc": 'mk("raisetbc", %d)' % k, "nil": "nil", "false": "false", "nometa": "{}", "lost": 'mk("lost", %d)' % k}[h]
+            put(ind + "local x%d <close> = %s" % (k, rhs) + (" LOST[%d].__close = nil" % k if h == "lost" else ""))
         elif act == "end":
             pass
         elif act == "break":
@@ -260,7 +262,9 @@ def run(prop, tier, family="close"):
             exp = [["tables"] + ["T%d" % j for j in range(1, ms + 1)]] + l["ev"]
             why = compare_program(routs[i], exp, l["fin"], make_tokf(render(l, ms, battery)[1], l))
             if why:
-                if l["fin"].startswith("error:") and why["kind"] == "events" and why.get("tag") == "tbc":
+                if l["fin"].startswith("error:") and ((why["kind"] == "events" and why.get("tag") == "tbc") or
+                                                      (why["kind"] == "outcome" and any(a.get("h") == "lost" for a in l["h"]))):
+                    # (a pending value that lost its __close changes the error value when it is closed: not closed here either)
                     sig = {"kind": "raw-toplevel"}
                 else:
                     sig = {"kind": why["kind"], "last": l["h"][-1]["a"], "tag": why.get("tag", ""), "entry": "rt.Call"}
